@@ -223,12 +223,16 @@ func FuzzConsensus(f *testing.F) {
 		}
 		ft := tfail{t}
 		e.t = ft
+		if wedged() {
+			t.Skip("the node of this fuzz process was wedged by an earlier input (reported above): nothing more can be learnt from it")
+		}
 		ch := consFuzzChans[sel&3]
 		pstate := consFuzzPeerStates[int(sel>>2)%len(consFuzzPeerStates)]
 		p := newPeer(sel&0x80 != 0)
-		e.addPeer(p)
+		var ps *consensus.PeerState
+		must(ft, "consensus: InitPeer+AddPeer for a new connection (Switch.addPeer)", func() { ps = e.addPeer(p) })
 		consPeerInto(ft, e, p, pstate)
-		before := e.ownState()
+		before := e.ownStateChecked()
 		o := deliver(ft, e.sw, e.conR, ch, p, data, "fuzz")
 		alive := e.barrier()
 		valid := consDecodes(data)
@@ -244,7 +248,7 @@ func FuzzConsensus(f *testing.F) {
 				t.Fatalf("ALLOCATION: %d bytes allocated for a %d-byte message on %#x (> 16 x %d + 1MiB); peer %s; message %s", o.alloc, len(data), ch, consMaxMsgSize, pstate, hx(data))
 			}
 		}
-		if after := e.ownState(); after != before {
+		if after := e.ownStateChecked(); after != before {
 			t.Fatalf("node's own consensus state changed by unauthenticated bytes %s:\nbefore %s\nafter  %s", hx(data), before, after)
 		}
 		e.settle(p)
@@ -257,8 +261,14 @@ func FuzzConsensus(f *testing.F) {
 				t.Fatalf("PROCESS DEATH: per-peer routine panicked after %s on %#x (peer %s)\n%s", hx(data), ch, pstate, pn)
 			}
 		}
+		// liveness: the node still serves a well-behaved newcomer and can be inspected
+		e.probe(ps)
+		if pn := e.routinePanic(); pn != "" {
+			e.clearPanics()
+			t.Fatalf("PROCESS DEATH: per-peer routine panicked while a well-behaved peer was served after %s on %#x (peer %s)\n%s", hx(data), ch, pstate, pn)
+		}
 		// disconnect; the peer's three routines must end
-		e.sw.StopPeerGracefully(p)
+		must(ft, "consensus: RemovePeer (Switch.StopPeerGracefully)", func() { e.sw.StopPeerGracefully(p) })
 		e.awaitPeerRoutines(p)
 	})
 }
@@ -266,7 +276,7 @@ func FuzzConsensus(f *testing.F) {
 // closeFuzzEnvs stops the per-process nodes of the fuzz targets (called from TestMain).
 func closeFuzzEnvs() {
 	if fuzzConsEnv != nil {
-		fuzzConsEnv.close()
+		abandonAfter(fuzzConsEnv.close)
 	}
 	var all []*fuzzTarget
 	for _, t := range fuzzMempool {
@@ -281,7 +291,7 @@ func closeFuzzEnvs() {
 	all = append(all, fuzzEvidence, fuzzStatesync)
 	for _, t := range all {
 		if t.env != nil {
-			t.env.close()
+			abandonAfter(t.env.close)
 		}
 	}
 }
@@ -309,28 +319,40 @@ func fuzzReactor(t *testing.T, name string, target *fuzzTarget, ch byte, outboun
 		return // MConnection would not have delivered it
 	}
 	ft := tfail{t}
-	p := e.addPeer(outbound)
-	if prep != nil {
-		prep(e, p)
+	if wedged() {
+		t.Skip("the node of this fuzz process was wedged by an earlier input (reported above): nothing more can be learnt from it")
 	}
-	before := e.own()
+	own := func() (s string) {
+		must(ft, e.name+": reading the node's own state", func() { s = e.own() })
+		return
+	}
+	var p *hpeer
+	must(ft, e.name+": InitPeer+AddPeer for a new connection (Switch.addPeer)", func() { p = e.addPeer(outbound) })
+	if prep != nil {
+		must(ft, e.name+": the node's own calls into the reactor before the message", func() { prep(e, p) })
+	}
+	before := own()
 	o := deliver(ft, e.sw, e.r, ch, p, data, name)
 	lib.Case(name, lib.FP(ch, outbound, data), valid, fmt.Sprintf("ch:%#x", ch), "=>"+outcomeClass(o), fmt.Sprintf("valid:%v", valid))
 	if o.alloc > allocBoundItems(e.capOf(ch), items) {
 		t.Fatalf("ALLOCATION: %s: %d bytes allocated for a %d-byte message (%d items) on %#x (> 16 x %d + 1MiB + 4KiB/item): %s", e.name, o.alloc, len(data), items, ch, e.capOf(ch), hx(data))
 	}
-	if after := e.own(); !mayChange && after != before {
+	if after := own(); !mayChange && after != before {
 		t.Fatalf("%s: node's own state changed by %s:\nbefore %s\nafter  %s", e.name, hx(data), before, after)
 	}
 	if e.inv != nil {
-		if bad := e.inv(); bad != "" {
+		var bad string
+		must(ft, e.name+": reading the node's own state", func() { bad = e.inv() })
+		if bad != "" {
 			t.Fatalf("%s: %s (after %s)", e.name, bad, hx(data))
 		}
 	}
 	for _, f := range post {
 		f(e) // while the peer is still connected
 	}
-	e.sw.StopPeerGracefully(p)
+	// liveness: the reactor still serves everybody else
+	e.probe(ft)
+	must(ft, e.name+": RemovePeer (Switch.StopPeerGracefully)", func() { e.sw.StopPeerGracefully(p) })
 	e.peers = nil
 }
 
@@ -531,7 +553,8 @@ func FuzzStatesync(f *testing.F) {
 			// the node's start-up goroutine now chooses among what was advertised (second half of Reactor.Sync)
 			r := e.r.(*statesync.Reactor)
 			pooled := r.VerifC17SnapshotCount()
-			o := measured(func() { _, _, _ = r.VerifC17FinishSync() })
+			var o recvOutcome
+			bounded(tfail{t}, "statesync: Reactor.Sync, second half (SyncAny)", func() { o = measured(func() { _, _, _ = r.VerifC17FinishSync() }) })
 			if o.panicked {
 				t.Fatalf("PROCESS DEATH: state sync goroutine panicked after %s: %v", hx(data), o.panicVal)
 			}
